@@ -274,6 +274,17 @@ def r6(ctx):
               and render(find[0][2]) in render(u[2][0]),
               "the event's own payload is applied to that book under its write lock", got=render(u)[:300], key="apply")
     ctx.check("OrderBookL2Manager::run", b.dominates(find[0][0], wr[0][0]) and b.dominates(wr[0][0], upd[0][0]), "lookup, lock, then update", key="order")
+    extra = []
+    for conj in b.guard(upd[0][0]):
+        for a in conj:
+            r = mir.render_atom(a)
+            if a[0] == "is" and (a[1] == find[0][2] and a[2] == frozenset(["Some"])):
+                continue
+            if a[0] == "is" and a[2] <= {"Item", "Some", "Ready"} and ("StreamExt::next" in r or "Future::poll" in r):
+                continue
+            extra.append(r[:120])
+    ctx.check("OrderBookL2Manager::run", not extra,
+              "every book event of a configured instrument is applied (no further condition can skip an update)", got=sorted(set(extra)), key="every-event")
 
 
 RULES = [
